@@ -25,7 +25,7 @@ func (r *ReflogStorage) Reflog(name plumbing.ReferenceName) ([]*reflog.Entry, er
 }
 
 // AppendReflog appends a single entry to the reflog for the given reference.
-func (r *ReflogStorage) AppendReflog(name plumbing.ReferenceName, entry *reflog.Entry) error {
+func (r *ReflogStorage) AppendReflog(name plumbing.ReferenceName, entry *reflog.Entry) (err error) {
 	f, err := r.dir.ReflogWriter(name)
 	if err != nil {
 		return err
